@@ -155,12 +155,14 @@ Print Assumptions C08_signed_sound.
 
 (* down to script execution, direction "compilation never takes spending ability away":
    accepted validation + policy true in W  ==>  a witness from W's assets is accepted by the
-   Script semantics on the encoded output.  PARTIAL: outputs without multisig leaves (the
-   fragments Theorem A covers), under Theorem A's hypotheses on number encodings / genuine assets;
-   the converse (accepted witness ==> policy true) needs Theorem B and is not proved. *)
+   Script semantics on the encoded output.  PARTIAL: one direction only -- the converse (accepted
+   witness ==> policy true) needs Theorem B and is not proved; hypotheses are Theorem A's (genuine
+   assets, the empty signature never verifies, constructor invariants [wf]; [no_multi] now only
+   excludes raw_pkh). *)
 Theorem C08_validated_policy_spendable_partial : forall e ke A W c kk pol m att,
   validate_compilation c kk pol m att = true ->
-  num_hyps -> TheoremA.assets_ok e ke A -> assets_match A W -> (forall ks, Permutation (ksort ke ks) ks) ->
+  TheoremA.assets_ok e ke A -> (forall kbs, Exec.e_sigok e kbs [] = false) ->
+  assets_match A W -> (forall ks, Permutation (ksort ke ks) ks) ->
   TheoremA.wf e ke m -> TheoremA.no_multi m ->
   evalc W pol = true ->
   exists w, In w (all_sat ke A m) /\ Exec.accepts e (enc ke m) w = true.
